@@ -73,6 +73,13 @@ def apply_op(obj, op, case_index=0):
             return obj[xp.asarray(m)]
         if f == "index":
             return obj[xp.asarray(np.asarray(sel["idx"], dtype=np.int64))]
+        if f == "masklist":
+            m = [False] * len(obj)
+            for k in sel["idx"]:
+                m[k] = True
+            return obj[m]
+        if f == "indexlist":
+            return obj[[int(k) for k in sel["idx"]]]
     if kind == "partconcat":
         cuts = [0] + list(op["cuts"]) + [len(obj)]
         pieces = [obj[cuts[k]:cuts[k + 1]] for k in range(len(cuts) - 1)]
@@ -190,12 +197,19 @@ def run_case(arg):
             if op["op"] == "select" and op["sel"]["form"] == "slice" and op["sel"]["st"] < 0 and obj.xp.__name__.endswith("torch"):
                 res["skipped"] = "torch tensors do not support negative slice steps"
                 return res
+            if op["op"] == "select" and op["sel"]["form"] in ("masklist", "indexlist") and "jax" in obj.xp.__name__:
+                res["skipped"] = "jax arrays do not accept Python lists as indices"
+                return res
+            src_before = project(obj, ev0)
+            src_obj = obj
             try:
                 obj = apply_op(obj, op, ci)
             except Exception as ex:
                 res["viol"].append((f"OpRaises|{tag}|{type(ex).__name__}", f"{label} on {init['cls']}[{init['ns']},{init['width']},{sorted(init['fields'])}] raised {type(ex).__name__}: {str(ex)[:160]}"))
                 return res
             exp = op["res"]
+            if k == 0 and project(src_obj, ev0) != src_before:
+                res["viol"].append((f"SourceUnchanged|{tag}", f"{label} changed the sample set it was applied to"))
             got = project(obj, ev0)
             if got["cls"] != exp["cls"]:
                 res["viol"].append((f"ClassKept|{tag}", f"class {got['cls']} != {exp['cls']}"))
